@@ -9,7 +9,10 @@ package main
 //	  esbulk  ms | s | ns-str | ns-num | frac-s | rfc3339 | absent     eswriter.HandleBulkBody
 //	  otlp    ns | zero                                                 otlp.ProcessLogIngest (protobuf)
 //	  loki    ns-str                                                    loki.ProcessLokiLogsIngestRequest (JSON push)
-//	  splunk  hec-time | ts-ms                                          splunk.ProcessSplunkHecIngestRequest
+//	  splunk  hec-time | hec-time-str | hec-time-s | hec-time-ms | hec-both | hec-none | hec-time-bad | ts-ms
+//	                                                                    splunk.ProcessSplunkHecIngestRequest
+//	          (envelope `time` as fractional number / numeric string / whole seconds / milliseconds; `time` a day
+//	           later than a root `timestamp`; neither; `time` not a number; root `timestamp` only)
 //
 // The oracle's answer is the Lean model `ingestStored` (ExtractTimeStamp on the scalar the protocol
 // hands over + the time the protocol handler itself puts on the event + arrival fallback).
@@ -45,12 +48,13 @@ import (
 
 func init() {
 	register(&Suite{Name: "timeproto", Gen: genTimeProto, Exec: execTimeProto, Parallel: 6,
-		Rule: "one event with an explicit time per case through ES bulk (ms, s, ns string, ns number, fractional seconds, RFC3339, no time), OTLP logs (time_unix_nano, 0), Loki JSON push (ns string), Splunk HEC (`time`, root `timestamp`); fresh engine process per case; flush; search; stored timestamp vs event time"})
+		Rule: "one event with an explicit time per case through ES bulk (ms, s, ns string, ns number, fractional seconds, RFC3339, no time), OTLP logs (time_unix_nano, 0), Loki JSON push (ns string), Splunk HEC (envelope `time` as fractional number, numeric string, whole seconds, milliseconds, not a number, absent, next to a root `timestamp`; root `timestamp` alone); fresh engine process per case; flush; search; stored timestamp vs event time"})
 }
 
 var c16ProtoForms = [][2]string{
 	{"esbulk", "ms"}, {"esbulk", "s"}, {"esbulk", "ns-str"}, {"esbulk", "ns-num"}, {"esbulk", "frac-s"}, {"esbulk", "rfc3339"}, {"esbulk", "absent"},
 	{"otlp", "ns"}, {"otlp", "zero"}, {"loki", "ns-str"}, {"splunk", "hec-time"}, {"splunk", "ts-ms"},
+	{"splunk", "hec-time-str"}, {"splunk", "hec-time-s"}, {"splunk", "hec-time-ms"}, {"splunk", "hec-both"}, {"splunk", "hec-none"}, {"splunk", "hec-time-bad"},
 }
 
 func genTimeProto(r *rand.Rand, n int, tier string) []string {
@@ -111,9 +115,9 @@ func execTimeProto(line string) Result {
 		return res
 	}
 	res.Out = ans
-	carries := f[2] != "absent" && f[2] != "zero"
+	carries := f[2] != "absent" && f[2] != "zero" && f[2] != "hec-none" && f[2] != "hec-time-bad"
 	want := ms
-	if f[2] == "s" {
+	if f[2] == "s" || f[2] == "hec-time-s" {
 		want = ms / 1000 * 1000
 	}
 	switch {
@@ -122,6 +126,10 @@ func execTimeProto(line string) Result {
 			res.Fails = append(res.Fails, PropFail{Sig: "time-protocol/" + f[1] + "-event-without-time-not-at-arrival-time", Msg: "event without a time: " + ans})
 		}
 	case ans == fmt.Sprintf("stored=%d", want):
+	case f[2] == "hec-both" && ans == fmt.Sprintf("stored=%d", (ms/1000+86400)*1000):
+		// the envelope carries two times (root `timestamp`, `time`): the statement does not say which one wins
+	case f[2] == "hec-time-ms" && ans != "stored=arrival":
+		// `time` in milliseconds is outside the HEC protocol (seconds): correspondence with the model only
 	case ans == "stored=arrival":
 		res.Fails = append(res.Fails, PropFail{Sig: "time-protocol/" + f[1] + "-" + f[2] + "-event-time-replaced-by-arrival-time",
 			Msg: fmt.Sprintf("event carried epoch ms %d through %s (%s) and was stored under its arrival time", want, f[1], f[2])})
@@ -213,9 +221,22 @@ func c16WorkerMain() {
 		status = ctx.Response.StatusCode()
 	case "splunk":
 		var body string
-		if f[2] == "hec-time" {
+		switch f[2] {
+		case "hec-time":
 			body = fmt.Sprintf(`{"time":%d.%03d,"index":"%s","event":{"msg":"c16 event"}}`, ms/1000, ms%1000, index)
-		} else {
+		case "hec-time-str":
+			body = fmt.Sprintf(`{"time":"%d.%03d","index":"%s","event":{"msg":"c16 event"}}`, ms/1000, ms%1000, index)
+		case "hec-time-s":
+			body = fmt.Sprintf(`{"time":%d,"index":"%s","event":{"msg":"c16 event"}}`, ms/1000, index)
+		case "hec-time-ms":
+			body = fmt.Sprintf(`{"time":%d,"index":"%s","event":{"msg":"c16 event"}}`, ms, index)
+		case "hec-both":
+			body = fmt.Sprintf(`{"time":%d,"timestamp":%d,"index":"%s","event":{"msg":"c16 event"}}`, ms/1000+86400, ms, index)
+		case "hec-none":
+			body = fmt.Sprintf(`{"index":"%s","event":{"msg":"c16 event"}}`, index)
+		case "hec-time-bad":
+			body = fmt.Sprintf(`{"time":"yesterday","index":"%s","event":{"msg":"c16 event"}}`, index)
+		default:
 			body = fmt.Sprintf(`{"timestamp":%d,"index":"%s","event":{"msg":"c16 event"}}`, ms, index)
 		}
 		ctx := c16Ctx([]byte(body), "application/json")
